@@ -519,6 +519,17 @@ where
 	T: PartialEq + std::fmt::Debug + Clone,
 	I: Iterator<Item = T>,
 {
+	check_iter_by(what, make, &|x| x, expected)
+}
+
+/// Same, for iterators whose items are compared through a projection `f`.
+/// Every operation is applied to the iterator itself (not to a `map` adaptor,
+/// which would bypass overridden `nth` / `count` / `last` / `fold`).
+pub fn check_iter_by<X, T, I>(what: &str, make: &dyn Fn() -> I, f: &dyn Fn(X) -> T, expected: &[T]) -> Result<u64, String>
+where
+	T: PartialEq + std::fmt::Debug + Clone,
+	I: Iterator<Item = X>,
+{
 	let len = expected.len();
 	let mut n_checks = 0u64;
 	let fail = |how: &str, got: String| Err(format!("{}: {} yields {}, expected from {:?}", what, how, got, expected));
@@ -532,7 +543,7 @@ where
 			return fail("size_hint", format!("({}, {:?}) with {} items remaining", lo, hi, remaining));
 		}
 		match it.next() {
-			Some(x) => got.push(x),
+			Some(x) => got.push(f(x)),
 			None => break,
 		}
 		if got.len() > len + 2 {
@@ -546,20 +557,20 @@ where
 	if make().count() != len {
 		return fail("count()", format!("{}", make().count()));
 	}
-	if make().last().as_ref() != expected.last() {
-		return fail("last()", format!("{:?}", make().last()));
+	if make().last().map(f).as_ref() != expected.last() {
+		return fail("last()", format!("{:?}", make().last().map(f)));
 	}
 	{
 		// internal iteration must visit the same items in the same order
 		let folded: Vec<T> = make().fold(Vec::new(), |mut a, x| {
-			a.push(x);
+			a.push(f(x));
 			a
 		});
 		if folded != expected {
 			return fail("fold", format!("{:?}", folded));
 		}
 		let mut each = Vec::new();
-		make().for_each(|x| each.push(x));
+		make().for_each(|x| each.push(f(x)));
 		if each != expected {
 			return fail("for_each", format!("{:?}", each));
 		}
@@ -568,11 +579,16 @@ where
 			let mut it = make();
 			it.next();
 			let rest: Vec<T> = it.fold(Vec::new(), |mut a, x| {
-				a.push(x);
+				a.push(f(x));
 				a
 			});
 			if rest != expected[1..] {
 				return fail("next() then fold", format!("{:?}", rest));
+			}
+			let mut it = make();
+			it.next();
+			if it.count() != len - 1 {
+				return fail("next() then count()", "a different number of items".to_string());
 			}
 		}
 	}
@@ -583,19 +599,25 @@ where
 			for _ in 0..m {
 				it.next();
 			}
-			let got = it.nth(n);
+			let got = it.nth(n).map(f);
 			n_checks += 1;
 			if got.as_ref() != expected.get(m + n) {
 				return fail(&format!("nth({}) after {} next()", n, m), format!("{:?}", got));
 			}
-			let after = it.next();
+			let after = it.next().map(f);
 			if after.as_ref() != expected.get(m + n + 1) && m + n < len {
 				return fail(&format!("next() after nth({}) after {} next()", n, m), format!("{:?}", after));
+			}
+			// and the rest of the iteration after that
+			let rest: Vec<T> = it.map(f).collect();
+			let want_rest: Vec<T> = expected.iter().skip(m + n + 2).cloned().collect();
+			if rest != want_rest && m + n < len {
+				return fail(&format!("the items after nth({}) after {} next()", n, m), format!("{:?}", rest));
 			}
 		}
 	}
 	for step in [2usize, 3] {
-		let got: Vec<T> = make().step_by(step).collect();
+		let got: Vec<T> = make().step_by(step).map(f).collect();
 		let want: Vec<T> = expected.iter().step_by(step).cloned().collect();
 		n_checks += 1;
 		if got != want {
@@ -603,7 +625,7 @@ where
 		}
 	}
 	for skip in [1usize, 2, len] {
-		let got: Vec<T> = make().skip(skip).collect();
+		let got: Vec<T> = make().skip(skip).map(f).collect();
 		let want: Vec<T> = expected.iter().skip(skip).cloned().collect();
 		n_checks += 1;
 		if got != want {
@@ -612,7 +634,7 @@ where
 		// skip after a partial consumption
 		let mut it = make();
 		it.next();
-		let got: Vec<T> = it.skip(skip).collect();
+		let got: Vec<T> = it.skip(skip).map(f).collect();
 		let want: Vec<T> = expected.iter().skip(1 + skip).cloned().collect();
 		if got != want {
 			return fail(&format!("next() then skip({})", skip), format!("{:?}", got));
